@@ -35,9 +35,10 @@ def case(item) -> tuple:
             return ('finding', f'construction:{note}@{gen.render(spec)}', f'building {gen.render(spec)} through the parser callbacks failed with {note}', {'kind': 'build', 'spec': spec})
         return ('illtyped', note, None, None)
     boolean = bool(ast.data_type & DataType.BOOL)
-    if (as_pred or op in ('split_and', 'refactor')) and (not boolean or sem.kind(ast) == 'HplLiteral'):
+    nonbool_refactor = op == 'refactor' and not as_pred and not boolean  # "expression in, expressions out" holds for every expression
+    if (as_pred or op in ('split_and', 'refactor')) and not nonbool_refactor and (not boolean or sem.kind(ast) == 'HplLiteral'):
         return ('illtyped', 'not boolean', None, None)
-    if as_pred or op in ('split_and', 'refactor'):
+    if (as_pred or op in ('split_and', 'refactor')) and not nonbool_refactor:
         try:
             pred = HplPredicateExpression(ast)
         except TypeError:
@@ -98,6 +99,9 @@ def case(item) -> tuple:
             bad = f'expected a pair, got {out!r}'
         elif as_pred and not all(is_pred(p) for p in out):
             bad = f'predicate in, but got ({out[0]!r}, {out[1]!r})'
+        elif nonbool_refactor:
+            if not all(is_expr(p) for p in out) or not any(p is f or p == f for p in out):
+                bad = f'non-boolean expression in; expected the expression itself paired with True, got ({out[0]}, {out[1]})'
         elif not as_pred and not all(is_expr(p) and p.data_type == DataType.BOOL for p in out):
             bad = f'boolean expression in, but got ({out[0]} : {getattr(out[0], "data_type", None)!r}, {out[1]} : {getattr(out[1], "data_type", None)!r})'
     else:
@@ -191,6 +195,7 @@ def main() -> int:
     for k, v in bf.items():
         base['B:' + k] = v[::step]
     base['slots'] = families.slot_family()
+    base['numeric-roots'] = families.numeric_roots()
     base['call-shapes'] = families.call_shapes()
     n_rand = 2000 if ck.tier == 'quick' else 30000
     base['random(seed)'] = families.uniq(families.random_specs(ck.seed + 14, n_rand, 4 if ck.tier == 'quick' else 5))
